@@ -223,6 +223,31 @@ def main(tier, seed):
                         if len(gi) != len(set(gi)) and [x for i, x in enumerate(gi) if x not in gi[:i]] == wi:
                             sig = "cxx_diamond_attrs_twice"
                         bad("a new %s exposes attributes %s, Part 21 order is %s" % (en, gi, wi), sig)
+            # model: CxxAttrs.v cxx_order vs the attribute list of the fresh instances
+            ids = {e["name"]: i + 1 for i, e in enumerate(S.entities)}
+            rev = {v: k2 for k2, v in ids.items()}
+            toks = []
+            for e in S.entities:
+                kinds = "E" * len(e["attrs"]) + "D" * len(e["derived"]) + "I" * len(e["inverse"])
+                toks.append("%d:%s:%s" % (ids[e["name"]], ",".join(str(ids[s]) for s in e["supers"]), kinds or "-"))
+            rcm, mo, me = sh([driver("drv_c18")], input=(" ".join(toks) + "\n").encode(), timeout=60)
+            for part in mo.strip().split(" ; "):
+                f = part.split("|")
+                if len(f) < 5:
+                    continue
+                en = rev[int(f[0])]
+                d = ents.get(en.lower())
+                if d is None or d["inst"] is None:
+                    continue
+                mlist = []
+                for x in f[4].split(","):
+                    if x:
+                        o, i = x.split(".")
+                        mlist.append(S.entity(rev[int(o)])["attrs"][int(i)]["name"].lower())
+                if mlist != [x.rstrip("*") for x in d["inst"]]:
+                    res.violation("model CxxAttrs.v and the generated class disagree on the attribute order of %s: model %s, instance %s" % (en, mlist, d["inst"]),
+                                  {"input_file": save("c02-%d-%d.exp" % (seed, k), text), "theorem_or_correspondence": "correspondence C02: coq/CxxAttrs.v vs ordered_attrs.cc"},
+                                  found_input=False)
             extra = set(ents) - {e["name"].lower() for e in S.entities}
             if extra:
                 bad("registry entities %s are not in the schema" % sorted(extra))
